@@ -282,3 +282,370 @@ Definition rt_post_trace : list ev :=
 Lemma rt_post : exists s, run d_rtrefresh init rt_post_trace = Some s /\ closers s 0 = CReturned /\ post s = 1.
 Proof. eexists. split; [vm_compute; reflexivity|]. split; reflexivity. Qed.
 
+(* what does hold without a guard: everything registered before the flag is gone when the body's wait is over *)
+Definition cl2 (s : st) (c : cst) : Prop :=
+  match c with
+  | CWaiting | CSleeping => flag s = true
+  | CWoken | CDone => flag s = true /\ pre s = 0
+  | _ => True
+  end.
+Definition inv2 (s : st) : Prop := forall t, cl2 s (closers s t).
+
+Lemma cl2_ext s s' c : flag s' = flag s -> pre s' = pre s -> cl2 s c -> cl2 s' c.
+Proof. intros F P. unfold cl2. rewrite F, P. auto. Qed.
+
+Lemma inv2_set s t v ot od pn po cd :
+  inv2 s -> cl2 s v ->
+  inv2 {| flag := flag s; ctor_done := cd; pre := pre s; post := po; closers := upd (closers s) t v;
+          once_taken := ot; once_done := od; panicked := pn |}.
+Proof.
+  intros I CV x. simpl. destruct (Nat.eq_dec x t) as [->|N]; [rewrite upd_same|rewrite upd_other by exact N].
+  - eapply cl2_ext; [| |exact CV]; reflexivity.
+  - eapply cl2_ext; [| |apply (I x)]; reflexivity.
+Qed.
+
+Lemma inv2_same_closers s s' :
+  inv2 s -> closers s' = closers s -> flag s' = flag s -> pre s' = pre s -> inv2 s'.
+Proof. intros I C F P x. rewrite C. eapply cl2_ext; eauto. Qed.
+
+Lemma step_inv2 d s e s' : inv2 s -> step d s e = Some s' -> inv2 s'.
+Proof.
+  intros I H.
+  destruct e as [| | | |t|t|t|t|t|t|t]; simpl in H.
+  - injection H as <-. eapply inv2_same_closers; eauto.
+  - assert (NF: flag s = false -> inv2 {| flag := flag s; ctor_done := ctor_done s; pre := S (pre s); post := post s; closers := closers s;
+                        once_taken := once_taken s; once_done := once_done s; panicked := panicked s |}).
+    { intros F x. simpl. specialize (I x). unfold cl2 in *; simpl. destruct (closers s x); simpl in *; try tauto; try (destruct I; congruence); congruence. }
+    destruct (d_guard d).
+    + destruct (flag s) eqn:F; injection H as <-; [exact I|apply NF; reflexivity].
+    + destruct (flag s) eqn:F; injection H as <-; [eapply inv2_same_closers; eauto|apply NF; reflexivity].
+    + destruct (ctor_done s); [discriminate|]. destruct (flag s) eqn:F; injection H as <-; [eapply inv2_same_closers; eauto|apply NF; reflexivity].
+  - destruct (pre s) as [|n] eqn:E; [discriminate|]. injection H as <-. intro x. simpl. specialize (I x). unfold cl2 in *; simpl.
+    destruct (closers s x); simpl in *; try tauto; destruct I; congruence.
+  - destruct (post s); [discriminate|]. injection H as <-. eapply inv2_same_closers; eauto.
+  - destruct (negb (ctor_done s)); [discriminate|].
+    assert (X: exists v ot, (v = CEntered \/ v = COnceBlocked \/ v = CEarly) /\
+               s' = {| flag := flag s; ctor_done := ctor_done s; pre := pre s; post := post s; closers := upd (closers s) t v;
+                       once_taken := ot; once_done := once_done s; panicked := panicked s |}).
+    { unfold set_closer in H. destruct (closers s t); try discriminate; destruct (d_once d); try destruct (once_taken s); try destruct (flag s);
+        injection H as <-; eauto 10. }
+    destruct X as (v & ot & Hv & ->). apply inv2_set; [exact I|]. destruct Hv as [->|[->| ->]]; exact Logic.I.
+  - destruct (closers s t) eqn:CT; try discriminate. injection H as <-. intro x. simpl.
+    destruct (Nat.eq_dec x t) as [->|N]; [rewrite upd_same|rewrite upd_other by exact N].
+    + destruct (match d_once d with OnceChanSelect => flag s | _ => false end); simpl; auto.
+    + specialize (I x). unfold cl2 in *; simpl. destruct (closers s x); simpl in *; tauto.
+  - destruct (closers s t) eqn:CT; try discriminate. destruct (Nat.eqb (pre s + post s) 0) eqn:Z; [|discriminate].
+    injection H as <-. apply Nat.eqb_eq in Z. pose proof (I t) as F. rewrite CT in F. simpl in F.
+    unfold set_closer. apply inv2_set; [exact I|]. split; [exact F|lia].
+  - destruct (closers s t) eqn:CT; try discriminate. destruct (Nat.eqb (pre s + post s) 0); [discriminate|].
+    injection H as <-. pose proof (I t) as F. rewrite CT in F. simpl in F. unfold set_closer. apply inv2_set; [exact I|exact F].
+  - destruct (closers s t) eqn:CT; try discriminate. destruct (Nat.eqb (pre s + post s) 0) eqn:Z; [|discriminate].
+    injection H as <-. apply Nat.eqb_eq in Z. pose proof (I t) as F. rewrite CT in F. simpl in F.
+    unfold set_closer. apply inv2_set; [exact I|]. split; [exact F|lia].
+  - destruct (closers s t) eqn:CT; try discriminate. injection H as <-. pose proof (I t) as F. rewrite CT in F. simpl in F.
+    apply inv2_set; [exact I|]. destruct (match d_wait d with WaitWG => negb (Nat.eqb (pre s + post s) 0) | WaitChan => false end); [exact Logic.I|exact F].
+  - destruct (closers s t) eqn:CT; try discriminate.
+    + injection H as <-. apply inv2_set; [exact I|exact Logic.I].
+    + destruct (once_done s); [|discriminate]. injection H as <-. unfold set_closer. apply inv2_set; [exact I|exact Logic.I].
+    + injection H as <-. unfold set_closer. apply inv2_set; [exact I|exact Logic.I].
+Qed.
+
+Lemma run_inv2 d evs : forall s s', inv2 s -> run d s evs = Some s' -> inv2 s'.
+Proof.
+  induction evs as [|e evs IH]; intros s s' I H; simpl in H; [injection H as <-; exact I|].
+  destruct (step d s e) as [s1|] eqn:E; [|discriminate]. eapply IH; [eapply step_inv2; eauto|exact H].
+Qed.
+
+(* whatever the guard: when the wait of Close's body is over, every goroutine registered before the flag is gone *)
+Theorem body_wait_over_pre_gone d evs s t :
+  run d init evs = Some s -> closers s t = CDone -> pre s = 0.
+Proof.
+  intros H C. assert (I: inv2 init) by (intro x; exact Logic.I).
+  pose proof (run_inv2 d evs init s I H t) as F. rewrite C in F. simpl in F. tauto.
+Qed.
+
+(* ---- sequential use of a select-guarded Close (keystores) ------------------------------------------------ *)
+Definition in_body (c : cst) : bool := match c with CWaiting | CSleeping | CWoken | CDone => true | _ => false end.
+
+Definition cl3 (s : st) (c : cst) : Prop :=
+  match c with
+  | CEntered => flag s = false
+  | CWaiting | CSleeping => flag s = true
+  | CWoken | CDone | CReturned | CEarly => flag s = true /\ pre s = 0
+  | COnceBlocked | CPanicked => False
+  | CIdle => True
+  end.
+
+Definition inv3 (b : nat) (s : st) : Prop :=
+  panicked s = false /\ post s = 0 /\
+  (flag s = true -> ctor_done s = true) /\
+  (forall t, closers s t <> CIdle -> ctor_done s = true) /\
+  (forall t, b <= t -> closers s t = CIdle) /\
+  (forall t1 t2, active (closers s t1) = true -> active (closers s t2) = true -> t1 = t2) /\
+  (forall t, cl3 s (closers s t)) /\
+  (flag s = true -> (exists t, in_body (closers s t) = true) \/ pre s = 0).
+
+Lemma none_active_spec f n : none_active f n = true <-> forall t, t < n -> active (f t) = false.
+Proof.
+  induction n as [|n IH]; simpl.
+  - split; [intros _ t L; lia|reflexivity].
+  - rewrite andb_true_iff, negb_true_iff, IH. split.
+    + intros [A B] t L. destruct (Nat.eq_dec t n) as [->|N]; [exact A|apply B; lia].
+    + intro A. split; [apply A; lia|intros t L; apply A; lia].
+Qed.
+
+Lemma inv3_init b : inv3 b init.
+Proof.
+  unfold inv3, init; simpl. repeat split; try reflexivity; try discriminate; try (intros; exact I); try (intros; congruence).
+Qed.
+
+Lemma in_body_active c : in_body c = true -> active c = true.
+Proof. destruct c; simpl; auto. Qed.
+
+(* update of the closer of thread t when every other thread is inactive; flag and pre unchanged *)
+Lemma inv3_set b s t v :
+  inv3 b s -> t < b -> ctor_done s = true ->
+  (forall x, x <> t -> active (closers s x) = false) ->
+  cl3 s v ->
+  (flag s = true -> in_body v = true \/ pre s = 0) ->
+  inv3 b {| flag := flag s; ctor_done := ctor_done s; pre := pre s; post := post s; closers := upd (closers s) t v;
+            once_taken := once_taken s; once_done := once_done s; panicked := panicked s |}.
+Proof.
+  intros (P & Q & FC & AC & BD & UNI & CL & FB) TB CD OTH CV FV. unfold inv3; simpl. repeat split; auto.
+  - intros x L. rewrite upd_other by lia. apply BD; exact L.
+  - intros t1 t2 A1 A2. destruct (Nat.eq_dec t1 t) as [->|N1]; destruct (Nat.eq_dec t2 t) as [->|N2]; auto.
+    + rewrite upd_other in A2 by exact N2. rewrite (OTH t2 N2) in A2. discriminate.
+    + rewrite upd_other in A1 by exact N1. rewrite (OTH t1 N1) in A1. discriminate.
+    + rewrite upd_other in A1 by exact N1. rewrite (OTH t1 N1) in A1. discriminate.
+  - intro x. destruct (Nat.eq_dec x t) as [->|N]; [rewrite upd_same; exact CV|rewrite upd_other by exact N; apply (CL x)].
+  - intro F. destruct (FV F) as [B|Z]; [left; exists t; rewrite upd_same; exact B|right; exact Z].
+Qed.
+
+Lemma others_inactive b s t :
+  inv3 b s -> active (closers s t) = true -> forall x, x <> t -> active (closers s x) = false.
+Proof.
+  intros (_ & _ & _ & _ & _ & UNI & _) A x N. destruct (active (closers s x)) eqn:E; [|reflexivity]. exfalso. apply N. apply UNI; assumption.
+Qed.
+
+Lemma active_lt b s t : inv3 b s -> active (closers s t) = true -> t < b.
+Proof.
+  intros (_ & _ & _ & _ & BD & _) A. destruct (Nat.lt_ge_cases t b) as [L|G]; [exact L|]. rewrite (BD t G) in A. discriminate.
+Qed.
+
+Lemma step_inv3 b d s e s' :
+  d_once d = OnceChanSelect -> d_guard d <> GuardNone -> inv3 b s ->
+  (match e with ECloseEnter t => Nat.ltb t b && none_active (closers s) b | _ => true end) = true ->
+  step d s e = Some s' -> inv3 b s'.
+Proof.
+  intros O G I0 OK H. pose proof I0 as (P & Q & FC & AC & BD & UNI & CL & FB).
+  destruct e as [| | | |t|t|t|t|t|t|t]; simpl in H.
+  - injection H as <-. unfold inv3; simpl. repeat split; auto.
+  - (* ESpawn *)
+    assert (NF: flag s = false -> inv3 b {| flag := flag s; ctor_done := ctor_done s; pre := S (pre s); post := post s; closers := closers s;
+                        once_taken := once_taken s; once_done := once_done s; panicked := panicked s |}).
+    { intro F. unfold inv3; simpl. repeat split; auto.
+      - intro t. specialize (CL t). unfold cl3 in *; simpl. destruct (closers s t); simpl in *; try tauto; try (destruct CL; congruence); congruence.
+      - congruence. }
+    destruct (d_guard d) eqn:GD; [|congruence|].
+    + destruct (flag s) eqn:F; injection H as <-; [exact I0|apply NF; reflexivity].
+    + destruct (ctor_done s) eqn:C; [discriminate|].
+      destruct (flag s) eqn:F; [specialize (FC eq_refl); congruence|]. injection H as <-. apply NF. reflexivity.
+  - (* EExitPre *)
+    destruct (pre s) as [|n] eqn:E; [discriminate|]. injection H as <-. unfold inv3; simpl. repeat split; auto.
+    + intro t. specialize (CL t). unfold cl3 in *; simpl. destruct (closers s t); simpl in *; try tauto; destruct CL; congruence.
+    + intro F. destruct (FB F) as [X|X]; [left; exact X|congruence].
+  - rewrite Q in H. discriminate.
+  - (* ECloseEnter *)
+    apply andb_true_iff in OK. destruct OK as [TB NA]. apply Nat.ltb_lt in TB. rewrite none_active_spec in NA.
+    assert (ALL: forall x, active (closers s x) = false).
+    { intro x. destruct (Nat.lt_ge_cases x b) as [L|Gx]; [apply NA; exact L|rewrite (BD x Gx); reflexivity]. }
+    destruct (negb (ctor_done s)) eqn:C'; [discriminate|]. apply negb_false_iff in C'.
+    assert (H': (if flag s then Some (set_closer s t CEarly) else Some (set_closer s t CEntered)) = Some s').
+    { destruct (closers s t); try discriminate; rewrite O in H; exact H. }
+    clear H. destruct (flag s) eqn:F; injection H' as <-; unfold set_closer.
+    + apply inv3_set; auto.
+      * simpl. split; [exact F|]. destruct (FB eq_refl) as [[x B]|Z]; [|exact Z]. apply in_body_active in B. rewrite (ALL x) in B. discriminate.
+      * intros _. right. destruct (FB eq_refl) as [[x B]|Z]; [|exact Z]. apply in_body_active in B. rewrite (ALL x) in B. discriminate.
+    + apply inv3_set; auto. intro X. congruence.
+  - (* ECloseSet *)
+    destruct (closers s t) eqn:CT; try discriminate.
+    assert (A: active (closers s t) = true) by (rewrite CT; reflexivity).
+    pose proof (CL t) as F. rewrite CT in F. simpl in F.
+    rewrite O, F in H. simpl in H. rewrite orb_false_r in H. injection H as <-.
+    assert (CD: ctor_done s = true) by (apply (AC t); rewrite CT; discriminate).
+    pose proof (others_inactive b s t I0 A) as OTH. pose proof (active_lt b s t I0 A) as TB.
+    unfold inv3; simpl. repeat split; auto.
+    + intros x L. rewrite upd_other by lia. apply BD; exact L.
+    + intros t1 t2 A1 A2. destruct (Nat.eq_dec t1 t) as [->|N1]; destruct (Nat.eq_dec t2 t) as [->|N2]; auto.
+      * rewrite upd_other in A2 by exact N2. rewrite (OTH t2 N2) in A2. discriminate.
+      * rewrite upd_other in A1 by exact N1. rewrite (OTH t1 N1) in A1. discriminate.
+      * rewrite upd_other in A1 by exact N1. rewrite (OTH t1 N1) in A1. discriminate.
+    + intro x. destruct (Nat.eq_dec x t) as [->|N]; [rewrite upd_same; reflexivity|rewrite upd_other by exact N].
+      pose proof (OTH x N) as IA. specialize (CL x). unfold cl3 in *; simpl. destruct (closers s x); simpl in *; try discriminate; try tauto.
+    + intros _. left. exists t. rewrite upd_same. reflexivity.
+  - (* EWaitFast *)
+    destruct (closers s t) eqn:CT; try discriminate. destruct (Nat.eqb (pre s + post s) 0) eqn:Z; [|discriminate].
+    injection H as <-. apply Nat.eqb_eq in Z. pose proof (CL t) as F; rewrite CT in F. simpl in F.
+    assert (A: active (closers s t) = true) by (rewrite CT; reflexivity).
+    unfold set_closer. apply inv3_set; auto; [eapply active_lt; eauto|eapply others_inactive; eauto|split; [exact F|lia]].
+  - (* ESleep *)
+    destruct (closers s t) eqn:CT; try discriminate. destruct (Nat.eqb (pre s + post s) 0); [discriminate|].
+    injection H as <-. pose proof (CL t) as F; rewrite CT in F. simpl in F.
+    assert (A: active (closers s t) = true) by (rewrite CT; reflexivity).
+    unfold set_closer. apply inv3_set; auto; [eapply active_lt; eauto|eapply others_inactive; eauto].
+  - (* EWake *)
+    destruct (closers s t) eqn:CT; try discriminate. destruct (Nat.eqb (pre s + post s) 0) eqn:Z; [|discriminate].
+    injection H as <-. apply Nat.eqb_eq in Z. pose proof (CL t) as F; rewrite CT in F. simpl in F.
+    assert (A: active (closers s t) = true) by (rewrite CT; reflexivity).
+    unfold set_closer. apply inv3_set; auto; [eapply active_lt; eauto|eapply others_inactive; eauto|split; [exact F|lia]].
+  - (* EResume *)
+    destruct (closers s t) eqn:CT; try discriminate. pose proof (CL t) as F; rewrite CT in F. simpl in F. destruct F as [F1 F2].
+    assert (B: match d_wait d with WaitWG => negb (Nat.eqb (pre s + post s) 0) | WaitChan => false end = false).
+    { destruct (d_wait d); [|reflexivity]. rewrite F2, Q. reflexivity. }
+    rewrite B in H. rewrite orb_false_r in H. injection H as <-.
+    assert (A: active (closers s t) = true) by (rewrite CT; reflexivity).
+    apply inv3_set; auto; [eapply active_lt; eauto|eapply others_inactive; eauto|split; assumption].
+  - (* ECloseRet *)
+    destruct (closers s t) eqn:CT; try discriminate.
+    + pose proof (CL t) as F; rewrite CT in F. simpl in F. destruct F as [F1 F2]. rewrite O in H. injection H as <-.
+      assert (A: active (closers s t) = true) by (rewrite CT; reflexivity).
+      apply inv3_set; auto; [eapply active_lt; eauto|eapply others_inactive; eauto|split; assumption].
+    + pose proof (CL t) as F; rewrite CT in F. contradiction.
+    + pose proof (CL t) as F; rewrite CT in F. simpl in F. destruct F as [F1 F2]. injection H as <-.
+      assert (A: active (closers s t) = true) by (rewrite CT; reflexivity).
+      unfold set_closer. apply inv3_set; auto; [eapply active_lt; eauto|eapply others_inactive; eauto|split; assumption].
+Qed.
+
+Lemma run_seq_inv3 b d evs : forall s s',
+  d_once d = OnceChanSelect -> d_guard d <> GuardNone -> inv3 b s -> run_seq b d s evs = Some s' -> inv3 b s'.
+Proof.
+  induction evs as [|e evs IH]; intros s s' O G I H; simpl in H; [injection H as <-; exact I|].
+  destruct (match e with ECloseEnter t => Nat.ltb t b && none_active (closers s) b | _ => true end) eqn:OK; [|discriminate].
+  destruct (step d s e) as [s1|] eqn:E; [|discriminate]. apply (IH s1 s' O G); [|exact H]. exact (step_inv3 b d s e s1 O G I OK E).
+Qed.
+
+(* select-guarded Close used sequentially: every return comes after the worker is gone, and nothing panics *)
+Theorem seq_close_waits b d evs s t :
+  d_once d = OnceChanSelect -> d_guard d <> GuardNone -> run_seq b d init evs = Some s ->
+  panicked s = false /\ (closers s t = CReturned -> pre s = 0 /\ post s = 0).
+Proof.
+  intros O G H. destruct (run_seq_inv3 b d evs init s O G (inv3_init b) H) as (P & Q & _ & _ & _ & _ & CL & _).
+  split; [exact P|]. intro C. specialize (CL t). rewrite C in CL. simpl in CL. tauto.
+Qed.
+
+(* ... and a further sequential Close returns at once *)
+Theorem seq_close_again b d evs s t0 t :
+  d_once d = OnceChanSelect -> d_guard d <> GuardNone -> run_seq b d init evs = Some s ->
+  closers s t0 = CReturned -> t < b -> none_active (closers s) b = true ->
+  exists s', run_seq b d s [ECloseEnter t; ECloseRet t] = Some s' /\ closers s' t = CReturned /\ panicked s' = false.
+Proof.
+  intros O G H C0 TB NA. pose proof (run_seq_inv3 b d evs init s O G (inv3_init b) H) as I.
+  destruct I as (P & Q & FC & AC & BD & UNI & CL & FB). pose proof (CL t0) as F; rewrite C0 in F. simpl in F. destruct F as [F1 F2].
+  assert (CD: ctor_done s = true) by (apply FC; exact F1).
+  assert (CT: closers s t = CIdle \/ closers s t = CReturned).
+  { rewrite none_active_spec in NA. specialize (NA t TB). pose proof (CL t) as X. destruct (closers s t); simpl in *; try discriminate; auto; contradiction. }
+  eexists. split.
+  - simpl. apply Nat.ltb_lt in TB. rewrite TB, NA. simpl. rewrite CD. simpl.
+    destruct CT as [E|E]; rewrite E, O, F1; simpl; rewrite upd_same; reflexivity.
+  - simpl. rewrite upd_same. auto.
+Qed.
+
+(* ---- constructors ------------------------------------------------------------------------------------------ *)
+Definition clean_comps : list comp := [CDht; CDual; CProvMgr; CValueStore; CRtRefresh; CProvider; CBuffered; CKeystore; CResettable].
+Lemma ctor_clean_b : forallb ctor_clean clean_comps = true.
+Proof. vm_compute. reflexivity. Qed.
+
+Theorem ctor_error_clean c name p left :
+  In c clean_comps -> In (name, p, left) (leftovers [] (ctor_script c)) -> p = false /\ left = [].
+Proof.
+  intros Hc Hp. pose proof ctor_clean_b as B. rewrite forallb_forall in B. specialize (B c Hc).
+  unfold ctor_clean in B. rewrite forallb_forall in B. specialize (B _ Hp). simpl in B.
+  apply andb_true_iff in B. destruct B as [B1 B2]. apply negb_true_iff in B1. split; [exact B1|]. destruct left; [reflexivity|discriminate].
+Qed.
+
+(* provider/dual.New: the second provider.New failing leaves the owned keystore and the first provider running *)
+Lemma provdual_ctor_leaks :
+  In ("provider.New (WAN)", false, [RG GKsWorker; RG GConnProbe; RG GProvRun]) (leftovers [] (ctor_script CProvDual)) /\
+  In ("provider.New (LAN)", false, [RG GKsWorker]) (leftovers [] (ctor_script CProvDual)).
+Proof. split; vm_compute; tauto. Qed.
+
+(* fullrt.NewFullRT without a BootstrapPeers option: panics with the subscription and the provider manager's GC running *)
+Lemma fullrt_ctor_panics :
+  In ("dhtcfg.BootstrapPeers is nil (no BootstrapPeers option)", true, [RSub "fullrt"; RG GPmGc]) (leftovers [] (ctor_script CFullRT)).
+Proof. vm_compute. tauto. Qed.
+
+(* ---- the ResetCids start handshake ----------------------------------------------------------------------------- *)
+Definition rk_stuck (s : rk) : Prop := rk_c s = RkLeft /\ (rk_w s = RwHandling \/ rk_w s = RwAnswering).
+
+Lemma rk_stuck_step s e s' : rk_stuck s -> rk_step s e = Some s' -> rk_stuck s' /\ rk_close_ret s' = rk_close_ret s.
+Proof.
+  intros [C W] H. unfold rk_stuck. destruct e; simpl in H; rewrite ?C in H;
+    destruct W as [W|W]; rewrite ?W in H; try discriminate; injection H as <-; simpl; auto.
+Qed.
+
+Lemma rk_stuck_run evs : forall s s', rk_stuck s -> rk_run s evs = Some s' -> rk_close_ret s' = rk_close_ret s.
+Proof.
+  induction evs as [|e evs IH]; intros s s' K H; simpl in H; [injection H as <-; reflexivity|].
+  destruct (rk_step s e) as [s1|] eqn:E; [|discriminate]. destruct (rk_stuck_step s e s1 K E) as [K1 R]. rewrite <- R. eapply IH; eauto.
+Qed.
+
+(* once the caller has left on its cancelled context, Close never returns, whatever happens next *)
+Theorem rk_abandoned_never_closes :
+  exists s, rk_run rk0 [RkSend; RkCancel] = Some s /\ forall evs s', rk_run s evs = Some s' -> rk_close_ret s' = false.
+Proof.
+  exists {| rk_c := RkLeft; rk_w := RwHandling; rk_close_req := false; rk_close_ret := false |}.
+  split; [reflexivity|]. intros evs s' H.
+  assert (K: rk_stuck {| rk_c := RkLeft; rk_w := RwHandling; rk_close_req := false; rk_close_ret := false |})
+    by (split; [reflexivity|left; reflexivity]).
+  rewrite (rk_stuck_run evs _ s' K H). reflexivity.
+Qed.
+
+(* ---- the statements of Props/C14.v ---------------------------------------------------------------------------- *)
+Lemma p_close_waits d evs s t :
+  d_guard d <> GuardNone -> d_once d <> OnceChanSelect ->
+  run d init evs = Some s -> closers s t = CReturned -> pre s = 0 /\ post s = 0.
+Proof. intros G O. exact (close_waits d evs s t (conj G O)). Qed.
+
+Lemma p_idempotent d evs s t0 t :
+  d_guard d <> GuardNone -> d_once d <> OnceChanSelect ->
+  run d init evs = Some s -> closers s t0 = CReturned ->
+  (closers s t = CIdle \/ closers s t = CReturned) ->
+  exists evs' s', run d s evs' = Some s' /\ closers s' t = CReturned /\ panicked s' = false /\ pre s' = 0 /\ post s' = 0.
+Proof. intros G O. exact (close_again d evs s t0 t (conj G O)). Qed.
+
+Lemma p_no_panic d evs s :
+  d_guard d <> GuardNone -> d_once d <> OnceChanSelect ->
+  run d init evs = Some s -> panicked s = false /\ forall t, closers s t <> CPanicked.
+Proof. intros G O. exact (no_panic d evs s (conj G O)). Qed.
+
+Lemma p_no_add_after_close d s :
+  d_guard d = GuardLockFlag -> flag s = true ->
+  step d s ESpawn = Some s /\
+  forall evs s', run d s evs = Some s' -> flag s' = true /\ pre s' + post s' <= pre s + post s.
+Proof.
+  intros G F. split; [exact (spawn_rejected_after_flag d s G F)|].
+  intros evs s'. exact (no_add_after_close d evs s s' G F).
+Qed.
+
+Lemma p_ctor_refuted :
+  (exists name left, In (name, false, left) (leftovers [] (ctor_script CProvDual)) /\ left <> []) /\
+  (exists name left, In (name, true, left) (leftovers [] (ctor_script CFullRT)) /\ left <> []).
+Proof.
+  split.
+  - exists "provider.New (WAN)", [RG GKsWorker; RG GConnProbe; RG GProvRun]. split; [exact (proj1 provdual_ctor_leaks)|discriminate].
+  - exists "dhtcfg.BootstrapPeers is nil (no BootstrapPeers option)", [RSub "fullrt"; RG GPmGc]. split; [exact fullrt_ctor_panics|discriminate].
+Qed.
+
+Lemma p_select_refuted :
+  (exists evs s, run (desc_of CKeystore) init evs = Some s /\ closers s 1 = CReturned /\ pre s = 1) /\
+  (exists evs s, run (desc_of CKeystore) init evs = Some s /\ panicked s = true).
+Proof.
+  split; [exists ks_early_trace; exact ks_early|exists ks_double_trace; exact ks_double].
+Qed.
+
+Lemma p_unguarded_refuted :
+  (exists evs s, run (desc_of CRtRefresh) init evs = Some s /\ panicked s = true /\ closers s 0 = CPanicked) /\
+  (exists evs s, run (desc_of CRtRefresh) init evs = Some s /\ closers s 0 = CReturned /\ post s = 1).
+Proof.
+  split; [exists rt_panic_trace; exact rt_panic|exists rt_post_trace; exact rt_post].
+Qed.
